@@ -1,6 +1,6 @@
 (* Protocol entry point of the extracted model: one command + hex arguments in, one JSON line out. *)
 From Coq Require Import String Ascii List ZArith NArith Bool.
-From SDP Require Import Base PyStr Regex Json Codec LR RealTables Lexer Actions Parse Engine Seq Output Pre Api.
+From SDP Require Import Base PyStr Regex Json Codec LR RealTables Lexer Actions Parse Engine Seq Output Pre Api Entity.
 Import ListNotations.
 Open Scope string_scope.
 
@@ -52,6 +52,14 @@ Definition dispatch (cmd : string) (args : list string) : string :=
   | "run", [norm; silent; mode; group; js; data] =>
       json_of_res json_of_pyval
         (Api.run (String.eqb norm "1") (String.eqb silent "1") mode (String.eqb group "1") (String.eqb js "1") data)
+  | "ent_spec", norm :: rest =>
+      match ent_of_args rest with
+      | None => JObj [("unsupported", JStr "bad entity args")]
+      | Some e =>
+        JObj [("wf", JBool (Entity.wf e));
+              ("lexemes", JArr (map (fun lx => JArr [JStr (fst lx); JStr (snd lx)]) (Entity.lexemes e)));
+              ("denote", json_of_pyval (Entity.denote (String.eqb norm "1") e))]
+      end
   | "seq_spec", norm :: rest =>
       match seq_of_args rest with
       | None => JObj [("unsupported", JStr "bad seq args")]
